@@ -172,7 +172,7 @@ def check_construct(run, db):
             for e in f.events():
                 if e['ev'] == 'decl' and e.get('in_handler'):
                     for v in e['vars']:
-                        if v['did'] in others and sym.canon(v.get('init')) == '$begin' or (v['did'] in others and sym.strip_casts(v.get('init') or {}).get('k') == 'param' and sym.strip_casts(v['init'])['i'] == 1):
+                        if (v['did'] in others and sym.strip_casts(v.get('init') or {}).get('k') == 'param' and sym.strip_casts(v['init'])['i'] == 1):
                             start_ok = True
             if not start_ok:
                 problems.append('the rollback loop does not start at the first element')
@@ -215,7 +215,7 @@ def check_array_unique_dispatch(run, db):
             else:
                 okk = True
             # range: begin = result.get(), end = result.get() + count
-            b, e2 = sym.canon(args[1]), sym.canon(args[2])
+            b, e2 = sym.canon(args[1], {0: 'size'}), sym.canon(args[2], {0: 'size'})
             if not (e2 == '(%s + $size)' % b or e2 == '($size + %s)' % b):
                 okk = False
                 why = 'constructs the range [%s, %s), not count elements' % (b, e2)
@@ -491,13 +491,13 @@ def check_delegation(run, db):
         n += 1
         inst = '%s [%s]' % (f.display, db.config)
         calls = [t for e, t in flow.call_events(f) if t.get('short') in ('allocate_unique', 'allocate_array_unique') and '::detail::' in t.get('callee', '')]
-        is_array = any(p['name'] == 'size' for p in f.params)
+        is_array = bool(f.params) and f.params[-1]['t'] in ('unsigned long', 'std::size_t', 'size_t')   # the object form only has forwarding references
         okk = len(calls) == 1 and flow.must_pass_through(f, lambda e: top_term(e) is calls[0])
         why = 'does not delegate to the detail implementation exactly once'
         if okk:
             t = calls[0]
             if is_array:
-                okk = t['short'] == 'allocate_array_unique' and sym.canon(t['args'][0]) == '$size'
+                okk = t['short'] == 'allocate_array_unique' and sym.canon(t['args'][0], {len(f.params) - 1: 'size'}) == '$size'
                 why = 'array form does not pass the element count unchanged'
             else:
                 okk = t['short'] == 'allocate_unique'
@@ -526,7 +526,7 @@ def check_delegation(run, db):
         n += 1
         inst = '%s [%s]' % (f.display, db.config)
         calls = [t for e, t in flow.call_events(f) if t.get('short') == 'create']
-        okk = len(calls) == 1 and sym.canon(calls[0]['args'][0]) == '$additional_size.size' and len(calls[0]['args']) == len(f.params) - 1
+        okk = len(calls) == 1 and sym.canon(calls[0]['args'][0], {1: 'additional_size'}) == '$additional_size.size' and len(calls[0]['args']) == len(f.params) - 1
         if okk:
             run.ok('R-GUARD-DELEG', inst, f.loc, 'constructor creates through create(additional_size.size, args...)')
         else:
@@ -541,8 +541,8 @@ def check_delegation(run, db):
         why = 'does not construct a joint_ptr from (alloc, joint_size, ...)'
         if okk and f.short == 'clone_joint':
             t = cons[0]
-            sz = sym.canon(t['args'][1])
-            okk = 'capacity_used(get_memory($joint))' in sz and sym.canon(t['args'][2]).endswith('$joint')
+            sz = sym.canon(t['args'][1], {1: 'joint'})
+            okk = 'capacity_used(get_memory($joint))' in sz and sym.canon(t['args'][2], {1: 'joint'}).endswith('$joint')
             why = 'clone is not created with the source\'s used capacity and the source object (size term: %s)' % sz
         if okk:
             run.ok('R-GUARD-DELEG', inst, f.loc, 'builds the joint_ptr through the checked constructor')
